@@ -109,6 +109,8 @@ def sym(case):
 
         def newval():
             fresh[0] += 1
+            if fresh[0] == 2 and ctype != 'json-nonone' and ctx.flag('second_value_is_None'):
+                return None            # None is a value like any other (unless the cache was told not to allow it)
             return ctx.sym_val(f'v{fresh[0]}')
         # ---- pre-state of key k1 in the main cache
         if pre == 'intact':
